@@ -161,20 +161,36 @@ theorem map_strip_cases {x y : Py Compute.Fields} (h : x.map strip = y.map strip
 
 /-! ### `PacketParser.unparse` -/
 
+theorem filter_strip_not (p : String → Bool) (a b : Compute.Fields) (h : strip a = strip b) :
+    strip (a.filter (fun f => !p f.1)) = strip (b.filter (fun f => !p f.1)) :=
+  filter_strip (fun i => !p i) a b h
+
 theorem unparseClaimed_strip (a b : Compute.Fields) (h : strip a = strip b) (pns : List (ParserInst × String)) :
-    (unparseClaimed a pns).map strip = (unparseClaimed b pns).map strip := by
-  induction pns with
-  | nil => rfl
+    (unparseClaimed a pns).map (fun x => (strip x.1, strip x.2)) = (unparseClaimed b pns).map (fun x => (strip x.1, strip x.2)) := by
+  induction pns generalizing a b with
+  | nil => simp [unparseClaimed, pure, Except.pure, Except.map, h]
   | cons pn rest ih =>
     obtain ⟨p, n⟩ := pn
     unfold unparseClaimed
     have h1 := headerUnparse_strip p _ _ (filter_strip (fun i => strContains i n) a b h)
+    have h2 := ih _ _ (filter_strip_not (fun i => strContains i n) a b h)
     rcases map_strip_cases h1 with ⟨e, e1, e2⟩ | ⟨r, r', e1, e2, e3⟩
     · simp only [bind, Except.bind, e1, e2]
     · simp only [bind, Except.bind, e1, e2]
-      rcases map_strip_cases ih with ⟨e, f1, f2⟩ | ⟨q, q', f1, f2, f3⟩
-      · simp only [f1, f2]
-      · simp [f1, f2, pure, Except.pure, Except.map, e3, f3]
+      cases hx : unparseClaimed (List.filter (fun f => !strContains f.1 n) a) rest with
+      | error e =>
+        rw [hx] at h2
+        cases hy : unparseClaimed (List.filter (fun f => !strContains f.1 n) b) rest with
+        | error e' => rw [hy] at h2; simp only [Except.map, Except.error.injEq] at h2; subst h2; rfl
+        | ok y => rw [hy] at h2; simp [Except.map] at h2
+      | ok x =>
+        rw [hx] at h2
+        cases hy : unparseClaimed (List.filter (fun f => !strContains f.1 n) b) rest with
+        | error e' => rw [hy] at h2; simp [Except.map] at h2
+        | ok y =>
+          rw [hy] at h2
+          simp only [Except.map, Except.ok.injEq, Prod.mk.injEq] at h2
+          simp [pure, Except.pure, Except.map, e3, h2.1, h2.2]
 
 theorem packetUnparse_strip (ps : List ParserInst) (a b : Compute.Fields) (h : strip a = strip b) :
     (packetUnparse ps a).map strip = (packetUnparse ps b).map strip := by
@@ -183,13 +199,24 @@ theorem packetUnparse_strip (ps : List ParserInst) (a b : Compute.Fields) (h : s
   | error e => rfl
   | ok names =>
     simp only [bind, Except.bind]
-    rcases map_strip_cases (unparseClaimed_strip a b h (ps.zip names)) with ⟨e, f1, f2⟩ | ⟨q, q', f1, f2, f3⟩
-    · simp only [f1, f2]
-    · have := filter_strip (fun i => !(names.any (strContains i ·))) a b h
-      simp [f1, f2, pure, Except.pure, Except.map, f3, this]
+    have h2 := unparseClaimed_strip a b h (ps.zip names)
+    cases hx : unparseClaimed a (ps.zip names) with
+    | error e =>
+      rw [hx] at h2
+      cases hy : unparseClaimed b (ps.zip names) with
+      | error e' => rw [hy] at h2; simp only [Except.map, Except.error.injEq] at h2; subst h2; rfl
+      | ok y => rw [hy] at h2; simp [Except.map] at h2
+    | ok x =>
+      rw [hx] at h2
+      cases hy : unparseClaimed b (ps.zip names) with
+      | error e' => rw [hy] at h2; simp [Except.map] at h2
+      | ok y =>
+        rw [hy] at h2
+        simp only [Except.map, Except.ok.injEq, Prod.mk.injEq] at h2
+        simp [pure, Except.pure, Except.map, h2.1, h2.2]
 
-/-- dispatch: when the field list filtered by each parser's name is that parser's segment, the loop of
-    `PacketParser.unparse` un-parses segment by segment -/
+/-- dispatch: when, walking the stack, the fields not yet taken filtered by each parser's name are that parser's
+    segment, the loop of `PacketParser.unparse` un-parses segment by segment and leaves what nobody took -/
 def unparseSegs : List (ParserInst × Compute.Fields) → Py Compute.Fields
   | [] => pure []
   | (p, seg) :: rest => do
@@ -197,14 +224,78 @@ def unparseSegs : List (ParserInst × Compute.Fields) → Py Compute.Fields
     let more ← unparseSegs rest
     pure (mine ++ more)
 
-theorem unparseClaimed_segments (fs : Compute.Fields) (ts : List (ParserInst × String × Compute.Fields))
-    (h : ∀ t ∈ ts, fs.filter (fun f => strContains f.1 t.2.1) = t.2.2) :
-    unparseClaimed fs (ts.map fun t => (t.1, t.2.1)) = unparseSegs (ts.map fun t => (t.1, t.2.2)) := by
-  induction ts with
+def SegsOf : Compute.Fields → List (ParserInst × String × Compute.Fields) → Prop
+  | _, [] => True
+  | rem, t :: rest => rem.filter (fun f => strContains f.1 t.2.1) = t.2.2 ∧ SegsOf (rem.filter (fun f => !strContains f.1 t.2.1)) rest
+
+def leftOver : Compute.Fields → List (ParserInst × String × Compute.Fields) → Compute.Fields
+  | rem, [] => rem
+  | rem, t :: rest => leftOver (rem.filter (fun f => !strContains f.1 t.2.1)) rest
+
+theorem unparseClaimed_segments (fs : Compute.Fields) (ts : List (ParserInst × String × Compute.Fields)) (h : SegsOf fs ts) :
+    unparseClaimed fs (ts.map fun t => (t.1, t.2.1)) = (unparseSegs (ts.map fun t => (t.1, t.2.2))).map (fun out => (out, leftOver fs ts)) := by
+  induction ts generalizing fs with
   | nil => rfl
   | cons t rest ih =>
-    simp only [List.map_cons, unparseClaimed, unparseSegs]
-    rw [h t (by simp), ih (fun t' ht' => h t' (by simp [ht']))]
+    obtain ⟨h1, h2⟩ := h
+    simp only [List.map_cons, unparseClaimed, unparseSegs, leftOver]
+    rw [h1, ih _ h2]
+    cases headerUnparse t.1 t.2.2 with
+    | error e => rfl
+    | ok mine =>
+      simp only [bind, Except.bind]
+      cases unparseSegs (rest.map fun t => (t.1, t.2.2)) with
+      | error e => rfl
+      | ok more => rfl
+
+/-! ### nothing lost, nothing duplicated -/
+
+/-- a parser whose `unparse` is the base-class identity (everything but a CoAP parser in semantic mode) -/
+def PlainUnparse (p : ParserInst) : Prop := p.cls = "CoAPParser" → p.coapMode = .syntactic
+
+theorem headerUnparse_plain (p : ParserInst) (h : PlainUnparse p) (fs : Compute.Fields) : headerUnparse p fs = .ok fs := by
+  unfold headerUnparse
+  by_cases hc : p.cls = "CoAPParser"
+  · simp [hc, h hc, coapUnparse, pure, Except.pure]
+  · have : (p.cls == "CoAPParser") = false := by simpa using hc
+    simp [this, pure, Except.pure]
+
+theorem unparseClaimed_plain_perm (rem : Compute.Fields) (pns : List (ParserInst × String)) (h : ∀ pn ∈ pns, PlainUnparse pn.1) :
+    ∃ out left, unparseClaimed rem pns = .ok (out, left) ∧ (out ++ left).Perm rem := by
+  induction pns generalizing rem with
+  | nil => exact ⟨[], rem, rfl, by simp⟩
+  | cons pn rest ih =>
+    obtain ⟨p, n⟩ := pn
+    obtain ⟨out, left, h1, h2⟩ := ih (rem.filter (fun f => !strContains f.1 n)) (fun x hx => h x (List.mem_cons_of_mem _ hx))
+    refine ⟨rem.filter (fun f => strContains f.1 n) ++ out, left, ?_, ?_⟩
+    · unfold unparseClaimed
+      simp only [headerUnparse_plain p (h (p, n) (by simp)), h1, bind, Except.bind, pure, Except.pure]
+    · rw [List.append_assoc]
+      exact (List.Perm.append_left _ h2).trans (List.filter_append_perm _ rem)
+
+/-- for every stack whose parsers all have the plain `unparse` — whatever its shape: a header class listed twice
+    (tunnels), next-header prediction, fields in any order — `PacketParser.unparse` returns each field exactly once -/
+theorem packetUnparse_plain_perm (ps : List ParserInst) (names : List String) (hn : ps.mapM parserNameOf = .ok names)
+    (h : ∀ p ∈ ps, PlainUnparse p) (fs : Compute.Fields) :
+    ∃ out, packetUnparse ps fs = .ok out ∧ out.Perm fs := by
+  obtain ⟨out, left, h1, h2⟩ := unparseClaimed_plain_perm fs (ps.zip names) (fun pn hpn => h pn.1 (List.of_mem_zip hpn).1)
+  refine ⟨out ++ left, ?_, h2⟩
+  unfold packetUnparse
+  simp only [hn, h1, bind, Except.bind, pure, Except.pure]
+
+/-- a one-parser stack (what `factory("IPv6")` etc. build, with next-header prediction): fields that start with the
+    parser's own header followed by fields of other headers and the payload come back unchanged, in order -/
+theorem packetUnparse_single_plain (p : ParserInst) (n : String) (hn : parserNameOf p = .ok n) (h : PlainUnparse p)
+    (A B : Compute.Fields) (hA : ∀ x ∈ A, strContains x.1 n = true) (hB : ∀ x ∈ B, strContains x.1 n = false) :
+    packetUnparse [p] (A ++ B) = .ok (A ++ B) := by
+  unfold packetUnparse
+  simp only [List.mapM_cons, List.mapM_nil, hn, bind, Except.bind, pure, Except.pure, List.zip_cons_cons, List.zip_nil_right, unparseClaimed]
+  have f1 : (A ++ B).filter (fun f => strContains f.1 n) = A := by
+    rw [List.filter_append, List.filter_eq_self.mpr hA, List.filter_eq_nil_iff.mpr (fun x hx => by simp [hB x hx])]; simp
+  have f2 : (A ++ B).filter (fun f => !strContains f.1 n) = B := by
+    rw [List.filter_append, List.filter_eq_nil_iff.mpr (fun x hx => by simp [hA x hx]), List.filter_eq_self.mpr (fun x hx => by simp [hB x hx])]; simp
+  rw [f1, f2, headerUnparse_plain p h]
+  simp
 
 /-! ### `decompress(…, unparser=…)` for rules without compute fields -/
 
